@@ -138,17 +138,17 @@ def oblig(ctx, m):
         mres = m.run(fm[0], [ref, E.kahan('rs', 'rc')], extra)
         if any(r.kind == 'stuck' for r in mres):
             m.stuck('C08:L3', [r for r in mres if r.kind == 'stuck'][0].value[1])
-        eb, sb = 3, 4
-        for i, r in enumerate([r for r in mres if r.kind == 'return']):
-            st_ = r.store['_self']
-            S_, C_ = st_[3][0][1], st_[3][1][1]
-            pre = '(assert (bvsle (bvshl %s (_ bv%d 64)) (bvmul (_ bv2 64) %s)))\n(assert (bvsle (bvshl %s (_ bv%d 64)) (bvmul (_ bv2 64) %s)))' % (ABS('c_fx'), sb, ABS('s_fx'), ABS('rc_fx'), sb, ABS('rs_fx'))
-            d = '(bvsub (bvsub (bvsub S_fx C_fx) (bvsub s_fx c_fx)) (bvsub rs_fx rc_fx))'
-            mn = '(ite (bvsle %s %s) %s %s)' % (ABS('s_fx'), ABS('rs_fx'), ABS('s_fx'), ABS('rs_fx'))
-            body = pre + '\n(assert (not (bvsle (bvshl %s (_ bv%d 64)) (bvadd (bvmul (_ bv4 64) %s) (bvshl (bvmul (_ bv4 64) (bvadd %s %s)) (_ bv%d 64))))))' % (ABS(d), sb, mn, ABS('c_fx'), ABS('rc_fx'), sb)
-            for cu in itertools.product(range(2 ** eb - 1), repeat=2):
-                jobs.append(('C08:L3:merge-defect-first-order-in-the-smaller-operand:F(3,4)' + ('' if i == 0 else ':path%d' % i),
-                             build(eb, sb, ['s', 'c', 'rs', 'rc'], {'S': S_, 'C': C_}, r.pc, body, cube=dict(zip(['s', 'rs'], cu))), 180, 'C08:L3'))
+        for (eb, sb) in ([(3, 4)] + ([(3, 5)] if thorough else [])):
+          for i, r in enumerate([r for r in mres if r.kind == 'return']):
+              st_ = r.store['_self']
+              S_, C_ = st_[3][0][1], st_[3][1][1]
+              pre = '(assert (bvsle (bvshl %s (_ bv%d 64)) (bvmul (_ bv2 64) %s)))\n(assert (bvsle (bvshl %s (_ bv%d 64)) (bvmul (_ bv2 64) %s)))' % (ABS('c_fx'), sb, ABS('s_fx'), ABS('rc_fx'), sb, ABS('rs_fx'))
+              d = '(bvsub (bvsub (bvsub S_fx C_fx) (bvsub s_fx c_fx)) (bvsub rs_fx rc_fx))'
+              mn = '(ite (bvsle %s %s) %s %s)' % (ABS('s_fx'), ABS('rs_fx'), ABS('s_fx'), ABS('rs_fx'))
+              body = pre + '\n(assert (not (bvsle (bvshl %s (_ bv%d 64)) (bvadd (bvmul (_ bv4 64) %s) (bvshl (bvmul (_ bv4 64) (bvadd %s %s)) (_ bv%d 64))))))' % (ABS(d), sb, mn, ABS('c_fx'), ABS('rc_fx'), sb)
+              for cu in itertools.product(range(2 ** eb - 1), repeat=2):
+                  jobs.append(('C08:L3:merge-defect-first-order-in-the-smaller-operand:F(%d,%d)' % (eb, sb) + ('' if i == 0 else ':path%d' % i),
+                               build(eb, sb, ['s', 'c', 'rs', 'rc'], {'S': S_, 'C': C_}, r.pc, body, cube=dict(zip(['s', 'rs'], cu))), 180, 'C08:L3'))
     else:
         m.stuck('C08:L3', 'AddAssign<KahanSum> not found')
     # discrimination witness: naive summation (t = sum + x, no compensation) must violate L2's analogue |t - s - x| <= 2u|x| ... it does not hold:
